@@ -146,6 +146,32 @@ def run_cases(chk, tier):
                 check_dataset(chk, r, [path], path, dict(rep, geometry="pt"), boxes[:2], geometry="pt")
                 if k == 0:
                     chk.sample(dict(writer=writer, partitions=npart, rows=n), cap=4)
+        # frames derived from another frame before they are written: a boolean row filter keeps the partitions but not their extents,
+        # so nothing the parent knows about its partitions may be recorded for the child (or the other way round)
+        for variant in ("filter-of-read-frame", "parent-after-filtered-query", "column-selection-of-read-frame"):
+            df = make_frame(r, 18)
+            src = os.path.join(tmp, f"src_{variant}.parq")
+            dst = os.path.join(tmp, f"dst_{variant}.parq")
+            dd.from_pandas(df, npartitions=3).to_parquet(src)
+            from spatialpandas.io import read_parquet_dask
+            try:
+                if variant == "filter-of-read-frame":
+                    rd = read_parquet_dask(src)
+                    rd.geometry.partition_bounds      # the parent's recorded extents are in use
+                    rd[rd["a"] % 2 == 0].to_parquet(dst)
+                elif variant == "parent-after-filtered-query":
+                    parent = dd.from_pandas(df, npartitions=3)
+                    child = parent[parent["a"] % 3 == 0]
+                    child.cx[0:20, 0:20].compute()
+                    child.geometry.partition_bounds
+                    parent.to_parquet(dst)
+                else:
+                    rd = read_parquet_dask(src)
+                    rd[["a", "pt", "ln"]].to_parquet(dst)
+            except Exception as e:  # noqa: BLE001
+                chk.violation(f"bounds/derived-frame-write-raises-{common.err_kind(e)}/{variant}", dict(api="to_parquet", variant=variant, error=repr(e)[:300])); continue
+            rep = dict(api="read_parquet_dask", writer="to_parquet", layout=variant, partitions=3)
+            check_dataset(chk, r, [dst], dst, rep, [(0, 0, 10, 10), (15, 15, 60, 60)])
         # several datasets: list in non-sorted order, and a glob whose textual order differs from the natural order
         for variant in ("list", "glob"):
             names = ["tiles_east", "tiles_base"] if variant == "list" else ["run_2", "run_10"]
